@@ -1,4 +1,5 @@
 import Model.ClusterView
+import Model.EventQueue
 import Driver.Util
 /-! line-protocol driver for the event / refresh / propagation part of C16 (ops `reset ev…`, `ev…`) -/
 namespace Driver.C16Ev
@@ -20,6 +21,8 @@ structure St where
   specRep : List RHost := []         -- the property's reported list of the last evrefresh (local + valid peers)
   tracked : List Nat := []           -- objects reported DOWN by an event and not connected since
   deb : RGhost := {}                 -- unit tier on the real refreshDebouncer (`reset evdb`, `evdb…`)
+  q : EvQueue.Q := {}                -- unit tier on the real eventDebouncer (`reset evq`, `evq…`): the model of the code
+  qs : EvQueue.Spec := {}            -- … and the value-level specification run through the same schedule
 
 def init : St := {}
 
@@ -153,6 +156,21 @@ def e2eRefresh (s : St) (rows : String) : Option St :=
     | none => none
     | some hs => some { s1 with v := connectAll s1.env (s1.v.refresh s1.env hs) }
 
+def showEv : Ev → String
+  | .topology => "t"
+  | .status .up a => "u" ++ toString a
+  | .status .down a => "d" ++ toString a
+  | .status .other a => "x" ++ toString a
+
+/-- what the unit-level harness sees of the real eventDebouncer after an op: frames in the buffer, is the debounce
+timer running, the handler goroutines that were started and have not yet read their frames -/
+def queueState (q : EvQueue.Q) : String :=
+  "buf=" ++ toString q.events.len ++ " timer=" ++ (if q.timer then "1" else "0") ++
+  " pending=" ++ join (q.pending.map (fun p => toString p.1))
+
+def queueOp (s : St) (a : EvQueue.QAct) : St :=
+  { s with q := EvQueue.qstep EvQueue.goGrow s.q a, qs := EvQueue.sstep s.qs a }
+
 def oracleStr (pfx : String) (l : List Nat) : String :=
   if l.isEmpty then "ok" else pfx ++ ",".intercalate (l.map toString)
 
@@ -192,6 +210,9 @@ def refreshOp (s : St) (rows : String) : St × String :=
                                                 is pushed and debounced WHILE that refresh is running; release; quiescence
   reset evdb                                    a real refreshDebouncer (1 h interval, refreshFn blocks until released, timer fired by hand)
   evdbreq | evdbnow | evdbfire | evdbrel | evdbdrain   debounce() / refreshNow() / the timer fires / refreshFn returns / until quiet (Model DOp)
+  reset evq                                     a real eventDebouncer whose callback waits for the harness before it reads its frames
+  evq <ev> | evqfire | evqrun <k>               debounce(frame) / the debounce timer expires (flush) / handler goroutine k reads its batch
+  evqhandled                                    oracle "every handler that has run saw exactly the frames of its own flush"
   evdbserved                                    oracle "every request was followed by a refresh that started after it; every refreshNow() caller
                                                 was answered, and not by a refresh that had started before its call" (positions in the requests) -/
 def step (s : St) (ws : List String) : St × String :=
@@ -349,6 +370,21 @@ def step (s : St) (ws : List String) : St × String :=
     (s, if !s.deb.lost.isEmpty then oracleStr "lost:" s.deb.lost
         else if !s.deb.early.isEmpty then oracleStr "early:" s.deb.early
         else oracleStr "unanswered:" s.deb.unanswered)
+  | ["reset", "evq"] => ({ q := {}, qs := {} }, "ok")
+  | ["evq", e] => match parseEv e with
+    | none => (s, "bad-op")
+    | some ev => let s1 := queueOp s (.debounce ev); (s1, queueState s1.q)
+  | ["evqfire"] => let s1 := queueOp s .fire; (s1, queueState s1.q)
+  | ["evqrun", k] =>
+    let s1 := queueOp s (.run (nat k))
+    if s1.q.handled.length == s.q.handled.length then (s1, "none " ++ queueState s1.q) else
+    match s1.q.handled.getLast? with
+    | none => (s1, "none " ++ queueState s1.q)
+    | some b => (s1, "batch=" ++ join (b.2.map showEv) ++ " " ++ queueState s1.q)
+  | ["evqhandled"] =>
+    -- oracle: every handler that has run saw exactly the frames of its own flush (C16_event_batches_intact)
+    (s, if s.q.intact s.qs then "ok" else
+      oracleStr "clobbered:" ((s.q.handled.filter (fun b => !s.qs.handled.contains b)).map (·.1)))
   | ["e2ebound"] => (s, "ok")
   | ["e2eorder", n] =>
     -- n STATUS_CHANGE frames written back to back: the buffer of the node-event debouncer is the wire order (C16_wire_order_last_wins)
